@@ -26,6 +26,17 @@ pub fn builtin_binary_repeat<E: Effect>(
                 }
                 let count = bigint_to_usize(count)?;
                 let unit = executor.get_binary_data(binary)?.clone();
+                // Reject an oversized result before building the lazy tile: its realized length
+                // (`unit.len() * count`) must neither overflow nor exceed the maximum.
+                match unit.len().checked_mul(count) {
+                    Some(total) if total <= crate::value::MAX_BINARY_SIZE => {}
+                    _ => {
+                        return Err(Error::InvalidArgument(format!(
+                            "Repeated size exceeds maximum {}",
+                            crate::value::MAX_BINARY_SIZE
+                        )));
+                    }
+                }
                 let tiled = BinaryData::tiled(Rc::new(unit), count);
                 // allocate_binary_data enforces MAX_BINARY_SIZE against the realized length.
                 let binary = executor.allocate_binary_data(tiled)?;
@@ -372,9 +383,11 @@ pub fn builtin_binary_shift<E: Effect>(
                     let bytes = binary_data.to_vec();
 
                     let shift_left = shift_amount > 0;
-                    let shift_bits = shift_amount.unsigned_abs() as u32;
+                    // Keep the full 64-bit magnitude for the bounds check (narrowing it first would
+                    // turn a shift by 2^32 into a shift by 0).
+                    let shift_bits = shift_amount.unsigned_abs();
 
-                    if shift_bits >= (bytes.len() as u32 * 8) {
+                    if shift_bits >= (bytes.len() as u64 * 8) {
                         // Shift larger than total bits results in zeros
                         let result = vec![0u8; bytes.len()];
                         let binary = executor.allocate_binary(result)?;
@@ -383,7 +396,7 @@ pub fn builtin_binary_shift<E: Effect>(
 
                     let mut result = vec![0u8; bytes.len()];
                     let byte_shift = (shift_bits / 8) as usize;
-                    let bit_shift = shift_bits % 8;
+                    let bit_shift = (shift_bits % 8) as u32;
 
                     if shift_left {
                         // Left shift
@@ -514,6 +527,15 @@ pub fn builtin_binary_get<E: Effect>(
                     let bit_offset = bit_offset as usize;
                     let num_bits = num_bits as usize;
 
+                    // A start past the end can never have enough bits (and bounding it here keeps
+                    // the bit arithmetic below from overflowing).
+                    if byte_offset > binary_data.len() {
+                        return Err(Error::InvalidArgument(format!(
+                            "Not enough bits: need {} bits starting at byte {} bit {}",
+                            num_bits, byte_offset, bit_offset
+                        )));
+                    }
+
                     // Calculate which bytes we need to read
                     let total_bit_start = byte_offset * 8 + bit_offset;
                     let total_bit_end = total_bit_start + num_bits;
@@ -526,13 +548,14 @@ pub fn builtin_binary_get<E: Effect>(
                         )));
                     }
 
-                    // Read all bytes we need
-                    let mut value = 0u64;
+                    // Read all bytes we need. An unaligned window of 58..=64 bits spans 9 bytes, so
+                    // accumulate in 128 bits.
+                    let mut value = 0u128;
                     let bytes_to_read = last_byte_needed - byte_offset;
 
                     for i in 0..bytes_to_read {
                         value =
-                            (value << 8) | (binary_data.byte_at(byte_offset + i).unwrap() as u64);
+                            (value << 8) | (binary_data.byte_at(byte_offset + i).unwrap() as u128);
                     }
 
                     // Shift to align our bits to the right
@@ -542,14 +565,12 @@ pub fn builtin_binary_get<E: Effect>(
                     value >>= bits_after;
 
                     // Mask to keep only the bits we want
-                    let mask = if num_bits == 64 {
-                        u64::MAX
-                    } else {
-                        (1u64 << num_bits) - 1
-                    };
+                    let mask = (1u128 << num_bits) - 1;
                     value &= mask;
 
-                    Ok(BuiltinResult::Value(Value::Integer(BigInt::from(value))))
+                    Ok(BuiltinResult::Value(Value::Integer(BigInt::from(
+                        value as u64,
+                    ))))
                 }
                 _ => Err(Error::TypeMismatch {
                     expected: "[binary, integer, integer, integer]".to_string(),
@@ -617,6 +638,15 @@ pub fn builtin_binary_set<E: Effect>(
                     let num_bits = num_bits as usize;
                     let len = binary_data.len();
 
+                    // A start past the end can never have enough bits (and bounding it here keeps
+                    // the bit arithmetic below from overflowing).
+                    if byte_offset > len {
+                        return Err(Error::InvalidArgument(format!(
+                            "Not enough bits: need {} bits starting at byte {} bit {}",
+                            num_bits, byte_offset, bit_offset
+                        )));
+                    }
+
                     // Calculate which bytes we need to modify
                     let total_bit_start = byte_offset * 8 + bit_offset;
                     let total_bit_end = total_bit_start + num_bits;
@@ -658,21 +688,18 @@ pub fn builtin_binary_set<E: Effect>(
                     let bits_in_modified = bytes_to_modify * 8;
                     let bits_after = bits_in_modified - bit_offset - num_bits;
 
-                    // Shift value to correct position
-                    let shifted_value = value_u64 << bits_after;
+                    // Shift value to correct position. An unaligned window of 58..=64 bits spans 9
+                    // bytes, so work in 128 bits.
+                    let shifted_value = (value_u64 as u128) << bits_after;
 
                     // Create mask: all 1s except in our target bits
-                    let mask = if num_bits == 64 {
-                        0
-                    } else {
-                        let target_mask = ((1u64 << num_bits) - 1) << bits_after;
-                        !target_mask
-                    };
+                    let target_mask = ((1u128 << num_bits) - 1) << bits_after;
+                    let mask = !target_mask;
 
                     // Reconstruct the bytes
-                    let mut current_bytes = 0u64;
+                    let mut current_bytes = 0u128;
                     for &byte in &modified_bytes {
-                        current_bytes = (current_bytes << 8) | (byte as u64);
+                        current_bytes = (current_bytes << 8) | (byte as u128);
                     }
 
                     let new_bytes_value = (current_bytes & mask) | shifted_value;
